@@ -40,7 +40,7 @@ RULE = ('corpus of past failures / finding witnesses first, then seeded streams:
         'open_registry and a fresh registration; (text) arbitrary texts through set() incl. rejected ones; (file) hand-built hostile files '
         'through open_registry; (close) whole files with random defaults/help texts; (name) name lists through escape/join/split, '
         'isChannel, isValidRegistryName; (tree) histories of set/setValue/reset/get/save+load(+save again) on global, network and '
-        'channel level against a real tree, with channels of every CHANTYPES prefix, channel names containing the name separator, channel names that differ under lower() but not under casefold(), set-to-the-current-value steps and two save/boot rounds; '
+        'channel level against a real tree, with channels of every CHANTYPES prefix, channel names containing the name separator, channel names that differ under lower() but not under casefold(), set-to-the-current-value steps, two save/boot rounds, and the bot leaving one network for another between lookups (which networks are known is kept by the harness and handed to the model, not asked of world.getIrc); '
         '(tree-any) the same histories, property oracles only, over every value class (Regexp, Json, Float family, OnlySomeStrings, ...); '
         '(lazy) in-process re-reads incl. every order of reset/set/call/parent-set after a re-read; (live) the same through the commands of the real Config plugin on a live bot; (oracle-only) '
         'classes outside the model. A case is non-trivial when it carries at least one model-branch tag; distinct = distinct input; '
@@ -920,6 +920,8 @@ NETS = ['neta', 'NetB']            # networks the stub world knows
 # function of the child dictionaries) but not under casefold()
 CHANS = ['#x', '#Y', '&loc', '!Safe', '#b\\', '#python.de', '&local.ops', '#strasse', '#stra\u00dfe']
 PROBES = [(n, c) for n in (None, 'neta', 'netb') for c in [None] + [c.lower() for c in CHANS]]
+NET_SPARE = 'netc'                 # a network the bot is not on at first: histories disconnect from one network and connect to this one
+PROBES3 = PROBES + [(NET_SPARE, c) for c in [None] + [c.lower() for c in CHANS]]
 
 class _StubIrc(object):
     def __init__(self, network): self.network = network
@@ -1030,6 +1032,14 @@ class RealTree(object):
             v = self.node.getSpecific(network=n, channel=c)()
             return 'val\t' + enc_val(canon_value(v))
         return self.guarded(f)
+    def direct(self, n, c):
+        """the value of the node for network n / channel c, reached by name (no world.getIrc, no getSpecific)"""
+        def f():
+            g = self.node
+            if n is not None: g = g.get(':' + n)
+            if c is not None: g = g.get(c)
+            return 'val\t' + enc_val(canon_value(g()))
+        return self.guarded(f)
     def dump(self):
         out = []
         for (name, node) in self.root.getValues(getChildren=True):
@@ -1082,18 +1092,20 @@ def stream_tree(I, R, r, n_hist, maxops=14):
             default = tree_value(r, k, risky=0)
             if k == 'comma' and not default: default = ['d']
             I.reset_cache()
+            world.ircs[:] = [_StubIrc(n) for n in NETS]
+            connected = set(n.lower() for n in NETS)      # kept by the harness, not asked of world.getIrc
             T = RealTree(I, k, kind, default)
             lines = ['t_boot\t%s\t%s\t%s\t%s\t%s\t%s\t-' % (k, TREE_PR, enc_val(T.dflt), '1' if kind in ('chan', 'net') else '0',
                                                        '1' if kind == 'chan' else '0', wire.enc('vt.var'))]
             impl = ['up']
             ops = []; tags = set(['tree-' + k, 'kind-' + kind]); fails = []; risky = None
             explicit = set()     # nodes assigned by the history and not reset since (kept by the harness, not read off the bot)
-            probes = [p for p in PROBES if (kind == 'chan') or (kind == 'net' and p[1] is None) or p == (None, None)]
+            probes = [p for p in PROBES3 if (kind == 'chan') or (kind == 'net' and p[1] is None) or p == (None, None)]
             def probe_all():
                 out = {}
                 for (pn, pc) in probes:
                     res = T.get(pn, pc)
-                    lines.append('t_get\t%s\t%s\t1\t1' % (wire.enc_opt(pn), wire.enc_opt(pc)))
+                    lines.append('t_get\t%s\t%s\t%s\t1' % (wire.enc_opt(pn), wire.enc_opt(pc), '1' if pn is None or pn in connected else '0'))
                     impl.append(res)
                     out[(pn, pc)] = res
                 return out
@@ -1106,7 +1118,7 @@ def stream_tree(I, R, r, n_hist, maxops=14):
                 def pick_where():
                     if kind == 'global': return ('base',)
                     y = r.random()
-                    n = r.choice(NETS + ['NETA']); c = r.choice(CHANS + ['#X'])
+                    n = r.choice(NETS + ['NETA', NET_SPARE]); c = r.choice(CHANS + ['#X'])
                     if kind == 'net': return ('base',) if y < 0.4 else ('net', n)
                     if y < 0.25: return ('base',)
                     if y < 0.5: return ('net', n)
@@ -1131,7 +1143,7 @@ def stream_tree(I, R, r, n_hist, maxops=14):
                         if [d for d in T.dump() if d in dump_before] != dump_before:
                             fails.append('rejected set(%r) at %s changed stored values' % (text, w))
                     else:
-                        _check_explicit_kept(fails, explicit, w, before, after, 'set(%r)' % text)
+                        _check_explicit_kept(fails, set(e for e in explicit if e[0] is None or e[0] in connected), w, before, after, 'set(%r)' % text)
                         explicit.add(_probe_of(w))
                         _check_locality(fails, w, before, after, 'set(%r)' % text)
                         _check_follow(fails, explicit, w, after, probes)
@@ -1143,12 +1155,12 @@ def stream_tree(I, R, r, n_hist, maxops=14):
                     lines.append('t_setv\t%s\t%s' % (enc_val(v), enc_where(w))); impl.append(res)
                     after = probe_all()
                     if res == 'done':
-                        _check_explicit_kept(fails, explicit, w, before, after, 'setValue(%r)' % (v,))
+                        _check_explicit_kept(fails, set(e for e in explicit if e[0] is None or e[0] in connected), w, before, after, 'setValue(%r)' % (v,))
                         explicit.add(_probe_of(w))
                         _check_locality(fails, w, before, after, 'setValue(%r)' % (v,))
                         _check_follow(fails, explicit, w, after, probes)
                 elif x < 0.65 and kind == 'chan':
-                    n = r.choice([None] + NETS); c = r.choice(CHANS)
+                    n = r.choice([None] + NETS + [NET_SPARE]); c = r.choice(CHANS)
                     res = T.reset_chan(n, c)
                     ops.append(['reset_chan', n, c]); tags.add('reset-chan')
                     if res == 'done':
@@ -1159,10 +1171,10 @@ def stream_tree(I, R, r, n_hist, maxops=14):
                     for p in probes:
                         if (p[1] or '').lower() != c.lower() and after[p] != before[p]:
                             fails.append('reset channel %s %s changed getSpecific%r: %s -> %s' % (n, c, p, before[p], after[p]))
-                    if res == 'done' and n is not None and after[(n.lower(), c.lower())] != after[(n.lower(), None)]:
+                    if res == 'done' and n is not None and n.lower() in connected and after[(n.lower(), c.lower())] != after[(n.lower(), None)]:
                         fails.append('after reset channel %s %s the channel value %s differs from the network value %s' % (n, c, after[(n.lower(), c.lower())], after[(n.lower(), None)]))
                 elif x < 0.72 and kind in ('chan', 'net'):
-                    n = r.choice(NETS)
+                    n = r.choice(NETS + [NET_SPARE])
                     res = T.reset_net(n)
                     ops.append(['reset_net', n]); tags.add('reset-net')
                     if res == 'done': explicit.discard((n.lower(), None))
@@ -1173,11 +1185,28 @@ def stream_tree(I, R, r, n_hist, maxops=14):
                             fails.append('reset network %s changed getSpecific%r' % (n, p))
                     if res == 'done' and after[(n.lower(), None)] != after[(None, None)]:
                         fails.append('after reset network %s its value %s differs from the general value %s' % (n, after[(n.lower(), None)], after[(None, None)]))
+                elif x < 0.77 and kind in ('chan', 'net'):
+                    # the bot leaves one network and joins another one: as many Irc objects as before
+                    out = r.choice(sorted(connected)); inn = [n for n in NETS + [NET_SPARE] if n.lower() not in connected][0]
+                    world.ircs[:] = [i for i in world.ircs if i.network.lower() != out] + [_StubIrc(inn)]
+                    connected.discard(out); connected.add(inn.lower())
+                    ops.append(['swap_net', out, inn]); tags.add('swap-net')
+                    after = probe_all()
+                    for p in probes:
+                        if p[0] is None and after[p] != before[p]:
+                            fails.append('leaving %s for %s changed getSpecific%r: %s -> %s' % (out, inn, p, before[p], after[p]))
+                        if p[0] in connected and p in explicit:
+                            # a value assigned for a network the bot is on (and not reset since) is what getSpecific answers
+                            d = T.direct(*p)
+                            if d != after[p]:
+                                fails.append('on networks %s (after leaving %s): getSpecific%r = %s but the node of that network/channel holds %s' % (sorted(connected), out, p, after[p], d))
+                        if p[0] is not None and p[0] not in connected and after[p] != after[(None, p[1])]:
+                            fails.append('not on network %s: getSpecific%r = %s differs from getSpecific%r = %s' % (p[0], p, after[p], (None, p[1]), after[(None, p[1])]))
                 elif x < 0.80:
                     # odd probes: unknown network, non-channel, wrong kind
                     pn = r.choice([None, 'ghost', 'neta', '']); pc = r.choice([None, 'notachan', '#x', '#x,y', '', '+plus', '&loc', '#' + 'c' * 50])
                     res = T.get(pn or None, pc or None)
-                    nok = pn is not None and world.getIrc(pn) is not None if pn else False
+                    nok = bool(pn) and pn.lower() in connected
                     cok = bool(pc) and bool(I.ircutils.isChannel(pc))
                     ops.append(['get', pn, pc]); tags.add('get-odd'); tags.add('get-' + res.split('\t')[0])
                     lines.append('t_get\t%s\t%s\t%s\t%s' % (wire.enc_opt(pn or None), wire.enc_opt(pc or None), '1' if nok else '0', '1' if cok else '0'))
@@ -2085,7 +2114,7 @@ def replay(ctx, path):
         I.reset_cache()
         T = RealTree(I, inp['class'], inp['kind'], inp['default'])
         def show():
-            return {('%s/%s' % p): T.get(*p) for p in PROBES if inp['kind'] == 'chan' or (inp['kind'] == 'net' and p[1] is None) or p == (None, None)}
+            return {('%s/%s' % p): T.get(*p) for p in PROBES3 if inp['kind'] == 'chan' or (inp['kind'] == 'net' and p[1] is None) or p == (None, None)}
         print('start:', show())
         for o in inp['ops']:
             if o[0] == 'set': res = T.set_text(tuple(o[1]), o[2])
@@ -2093,6 +2122,10 @@ def replay(ctx, path):
             elif o[0] == 'reset_chan': res = T.reset_chan(o[1], o[2])
             elif o[0] == 'reset_net': res = T.reset_net(o[1])
             elif o[0] == 'get': res = T.get(o[1] or None, o[2] or None)
+            elif o[0] == 'swap_net':
+                world.ircs[:] = [i for i in world.ircs if i.network.lower() != o[1]] + [_StubIrc(o[2])]
+                res = 'now on %s; nodes by name: %r' % ([i.network for i in world.ircs],
+                      {('%s/%s' % p): T.direct(*p) for p in PROBES3 if p[0] in [i.network.lower() for i in world.ircs] and (inp['kind'] == 'chan' or p[1] is None)})
             else:
                 res, text = T.save_load(); res = '%s file=%r' % (res, file_value_lines(text))
                 if T.node is None: print(o, '->', res); break
